@@ -2,8 +2,10 @@
 (* Validates runs recorded from the real ExecuteContext (instruction hook)   *)
 (* against Cancel.tla.  The recorded events are folded into Cancel's own     *)
 (* variables and the PROPERTIES of Cancel.tla (Prompt, EndsRight,            *)
-(* NoSpuriousCtxErr, RightIdentity, DeliveredBefore, and invisibility of a   *)
-(* context that is never cancelled) must hold in every state so obtained,    *)
+(* NoSpuriousCtxErr, RightIdentity, DeliveredBefore -- per destination of the *)
+(* output: unbuffered / bufio.Writer standard output, file, command --, and   *)
+(* invisibility of a context that is never cancelled) must hold in every      *)
+(* state so obtained,                                                         *)
 (* with CheckEvery = the bound the statement gives for the real code (one    *)
 (* poll interval of 1000 instructions + slack).  Deliberately NOT demanded:  *)
 (* that the run is a behaviour of Cancel's counter -- where inside the       *)
@@ -17,7 +19,7 @@ tvars == <<vars, l, same>>
 TInit == Init /\ useCtx = TRUE /\ l = 1 /\ same = TRUE
 
 Fresh == /\ ops' = 0 /\ cancelled' = FALSE /\ why' = "none" /\ since' = 0 /\ ps' = PsInit /\ bs' = PsInit
-         /\ atCancel' = [printed |-> 0, ops |-> 0] /\ result' = "running" /\ errId' = "none" /\ delivered' = 0
+         /\ atCancel' = [printed |-> Zero, ops |-> 0] /\ result' = "running" /\ errId' = "none" /\ delivered' = Zero
          /\ same' = TRUE
 
 \* the state after event ev (a record of the primed values that change)
@@ -29,8 +31,8 @@ Apply(ev) ==
   CASE ev.op = "start" ->
          /\ useCtx' = ev.ctx /\ Fresh
          /\ IF ev.pre THEN TRUE ELSE TRUE
-    [] ev.op = "print" ->
-         /\ ps' = [ps EXCEPT !.printed = @ + ev.n]
+    [] ev.op = "print" ->      \* (how much of it is pending in a buffer cannot be seen from outside and is not recorded)
+         /\ ps' = [ps EXCEPT !.printed[ev.dest] = @ + ev.n]
          /\ UNCHANGED <<useCtx, ops, cancelled, why, since, bs, atCancel, result, errId, delivered, same>>
     [] ev.op = "exec" ->
          /\ ops' = (ops + ev.n) % CheckEvery
@@ -41,7 +43,8 @@ Apply(ev) ==
          /\ atCancel' = [printed |-> ps.printed, ops |-> ops]
          /\ UNCHANGED <<useCtx, ops, ps, bs, result, errId, delivered, same>>
     [] ev.op = "end" ->
-         /\ result' = ev.result /\ errId' = ev.errid /\ delivered' = ev.delivered /\ same' = ev.same
+         /\ result' = ev.result /\ errId' = ev.errid /\ same' = ev.same
+         /\ delivered' = [d \in Dests |-> ev.delivered[d]]
          /\ UNCHANGED <<useCtx, ops, cancelled, why, since, ps, bs, atCancel>>
 
 TStep ==
